@@ -130,12 +130,34 @@ format_tcgame = Fn(F, "format_tcgame", impl="util::BitVec", impl_header="BitVec"
     ],
 )
 
+FB = "src/util/bitvec.rs"
+get_blocks = Fn(FB, "get_blocks", impl="BitVec", impl_header="BitVec", slot="util", ret="res", key="BitVec::get_blocks", props=["C11", "C03", "C19"],
+    requires=[C("spans_fit", "forall|j: int| 0 <= j < self.spans@.len() ==> (#[trigger] self.spans@[j]).offset is Some ==> self.spans@[j].offset->0 + self.spans@[j].size <= usize::MAX", ["C19"])],
+    ensures=[
+        C("no_empty_block", "forall|k: int| 0 <= k < res@.len() ==> (#[trigger] res@[k]).size > 0", ["C11"]),
+        C("blocks_are_exactly_the_item_bits", "forall|x: nat| #[trigger] blocks_cover(res@, res@.len() as int, x) == spans_cover(%s, self.spans@.len() as int, x)" % SORTED, ["C11"]),
+    ],
+    rewrites=[SORT, Rewrite("let mut result = Vec::new();", "let mut result: Vec<BitVecBlock> = Vec::new();", rule="R10", why="type ascription: the inserted invariant mentions `result` before inference has fixed its element type")],
+    for_to_while=[1],
+    loops={1: Loop(invariant=[
+        C("sorted", VEC(1)),
+        C("fits", "forall|j: int| 0 <= j < self.spans@.len() ==> (#[trigger] self.spans@[j]).offset is Some ==> self.spans@[j].offset->0 + self.spans@[j].size <= usize::MAX"),
+        C("run_fits", "current_origin is Some ==> current_origin->0 + current_size <= usize::MAX"),
+        C("no_empty_block", "forall|k: int| 0 <= k < result@.len() ==> (#[trigger] result@[k]).size > 0"),
+        C("same_bits_so_far", "forall|x: nat| (blocks_cover(result@, result@.len() as int, x) || run_covers(current_origin, current_size, x)) == #[trigger] spans_cover(%s, verif_next_1 as int, x)" % SORTED),
+    ], decreases="verif_vec_1@.len() - verif_next_1",
+       body_start=" proof { lemma_sorted_elements(self.spans@, verif_vec_1@, verif_next_1 as int); lemma_spans_cover_step(sort_by_offset(self.spans@), verif_next_1 as int); } let ghost blocks0 = result@;",
+       body_end=" proof { if result@.len() > blocks0.len() { lemma_blocks_cover_push(blocks0, result@[blocks0.len() as int]); assert(result@ =~= blocks0.push(result@[blocks0.len() as int])); } }")},
+    inserts=[Insert("        result\n", "        proof { if result@.len() > blocks_before_last.len() { lemma_blocks_cover_push(blocks_before_last, result@[blocks_before_last.len() as int]); assert(result@ =~= blocks_before_last.push(result@[blocks_before_last.len() as int])); } }\n", where="before"),
+             Insert("        if let Some(origin) = current_origin\n        {\n            if current_size != 0\n            {\n                result.push", "        let ghost blocks_before_last = result@;\n", where="before")],
+)
+
 UNIT = Unit(
     "U-listing", "u_listing/skeleton.rs",
     items=cb.items("stub", "util", only=["set_bit", "get_bit"]) + bv.items("stub", "util", only=["read_bit", "len"]) + [
         Type(uc.FS, "struct", "Span", slot="diagn", derive="drop"),
         uc.span_location.as_stub("diagn"),
-        format_addrspan, format_annotated, format_tcgame,
+        format_addrspan, format_annotated, format_tcgame, get_blocks,
     ],
     serves=["C12", "C03", "C19"],
     description="util::BitVec listings (address spans, annotated, Turing Complete) against functional specs of their rows",
